@@ -30,6 +30,8 @@ def run(repo, rep):
     _log_rule(repo, rep, 'C19', 'C19.Z2')
     from ..api_pitfalls import truth_rule as _truth_rule
     _truth_rule(repo, rep, 'C19', 'C19.Z4')
+    from ..api_pitfalls import attribute_rule as _attribute_rule
+    _attribute_rule(repo, rep, 'C19', 'C19.Z5')
     from ..pitfalls import zero_rule as _zero_rule
     _zero_rule(repo, rep, 'C19', 'C19.Z3')
     rep.trust('C18 for the pending classification; CPython generator semantics')
